@@ -94,7 +94,7 @@ impl<'a> RoundTrip<'a> {
 		let desc = format!("{container} {format:?} {comp:?} tiles={} set={name}", tiles.len());
 		// the source hands out blobs that are already compressed as it declares
 		let stored: TileMap = tiles.iter().map(|(c, d)| (*c, compress(Blob::from(d.clone()), &comp).unwrap().into_vec())).collect();
-		let src = MemSource::new("mem", stored.iter().map(|(c, d)| (*c, d.clone())).collect(), format, comp).with_tilejson(tj.clone());
+		let src = MemSource::new("mem", stored.iter().map(|(c, d)| (*c, d.clone())).collect(), format, comp).with_tilejson(tj.clone()).with_yields(tiles.len() % 2);
 		let expect_pyramid = src.parameters.bbox_pyramid.clone();
 		let path = if container == "dir" { let p = self.dir.join(format!("{name}_dir")); let _ = std::fs::remove_dir_all(&p); std::fs::create_dir_all(&p).unwrap(); p } else { self.dir.join(format!("{name}.{container}")) };
 		let pstr = path.to_str().unwrap().to_string();
